@@ -244,7 +244,7 @@ def check_formula(run, bp, g, cards):
         run.discard("no-semantics")
 
 
-CFGS = [Cfg(max_depth=4), Cfg(max_depth=5, theories={"bool", "int", "bv", "uf", "quant", "arr", "sort"}, bv_widths=[1, 2, 4]),
+CFGS = [Cfg(max_depth=4, pow=True), Cfg(max_depth=5, theories={"bool", "int", "bv", "uf", "quant", "arr", "sort"}, bv_widths=[1, 2, 4]),
         Cfg(max_depth=4, quant_unbounded=True)]
 
 
